@@ -94,6 +94,8 @@ def check(prog: Program, run: Run) -> None:
     from . import tagpaths
     tagpaths.check(prog, tm, run, "C11.R7")
     common.g8_xsd_boolean(prog, run, "C11.G7", ["odxtools/*.py", "odxtools/**/*.py"])
+    common.g10_children_only(prog, run, "C11.G7", ["odxtools/*.py", "odxtools/**/*.py"])
+    _description_lines(prog, tm, run)
     # xsd:choice groups of the ODX schema: exactly one of the elements occurs
     common.g7_independent_elements(prog, run, "C11.G7", ["odxtools/*.py", "odxtools/**/*.py"],
                                    choices=[{"OUT-PARAM-IF-SNREF", "OUT-PARAM-IF-SNPATHREF"}])
@@ -822,3 +824,46 @@ def _loaders(prog: Program, run: Run) -> None:
             run.ok(R, sp, "suffixes are compared case-insensitively", f.loc)
         else:
             run.violation(R, sp, "case", "suffixes are compared case-sensitively", f.loc)
+
+
+def _description_lines(prog: Program, tm, run: Run) -> None:
+    """The templates re-indent the continuation lines of a description (`|indent`), so the parser
+    must strip every line: otherwise the indentation of the document nesting becomes part of the
+    text and grows with every write/load cycle."""
+    R = "C11.R4"
+    f = prog.func("Description.from_et")
+    rets = [r.value for r in walk_no_nested(f.node) if isinstance(r, ast.Return) and isinstance(
+        r.value, ast.Call)]
+    txt = None
+    for r in rets:
+        for k in r.keywords:
+            if k.arg == "text":
+                txt = common.resolve_locals(f.node, k.value)
+    if txt is None:
+        raise AnalysisError("Description.from_et: text= not found")
+    per_line = False
+    for x in ast.walk(txt):
+        if isinstance(x, (ast.ListComp, ast.GeneratorExp)) and len(x.generators) == 1:
+            g = x.generators[0]
+            it = g.iter
+            lines = isinstance(it, ast.Call) and isinstance(it.func, ast.Attribute) and (
+                it.func.attr == "splitlines" or (it.func.attr == "split" and it.args and
+                                                 isinstance(it.args[0], ast.Constant) and
+                                                 it.args[0].value == "\n"))
+            strips = isinstance(x.elt, ast.Call) and isinstance(x.elt.func, ast.Attribute) and \
+                x.elt.func.attr == "strip" and ast.unparse(x.elt.func.value) == ast.unparse(
+                    g.target)
+            if lines and strips:
+                per_line = True
+        if isinstance(x, ast.Call) and call_name(x) == "map" and len(x.args) == 2 and \
+                ast.unparse(x.args[0]) == "str.strip":
+            per_line = True
+    if per_line:
+        run.ok(R, "Description.from_et", "every line of the text is stripped (the writer "
+               "re-indents continuation lines)", f.loc)
+    else:
+        run.violation(R, "Description.from_et", "lines-not-stripped",
+                      f"the description text is `{ast.unparse(txt)[:100]}`: the lines are not "
+                      "stripped one by one, so the indentation the writer adds to continuation "
+                      "lines is read back as part of the text (and grows with each cycle)",
+                      f.loc)
